@@ -89,7 +89,14 @@ InFrames(PP, scope, k, n) ==
   ELSE LET gs == Groupings(scope[k].kids, n) IN
        IF gs # <<>> THEN [found |-> TRUE, stmt |-> gs[1], scope |-> SubSeq(scope, k, Len(scope))]
        ELSE IF k = Len(scope)
-            THEN InIncludes(PP, PP[scope[k].mod].includes, n, {scope[k].mod})
+            THEN LET m == scope[k].mod
+                     own == InIncludes(PP, PP[m].includes, n, {m}) IN
+                 \* a submodule's text is its module's text: the module's own top level and its other submodules come last
+                 IF own.found \/ PP[m].kind # "submodule" \/ PP[m].belongs \notin DOMAIN PP THEN own
+                 ELSE LET o == PP[m].belongs
+                          gs2 == Groupings(PP[o].body, n) IN
+                      IF gs2 # <<>> THEN [found |-> TRUE, stmt |-> gs2[1], scope |-> << [mod |-> o, kids |-> PP[o].body] >>]
+                      ELSE InIncludes(PP, PP[o].includes, n, {m, o})
             ELSE InFrames(PP, scope, k + 1, n)
 OwnPrefix(PP, m) == PP[m].pfx      \* for a submodule: the prefix of its belongs-to statement
 FindGrouping(PP, scope, ref) ==
@@ -119,7 +126,8 @@ Inst(PP, stmts, scope) ==      \* [nodes, err]
                   ELSE LET c == Inst(PP, g.stmt.kids, << [mod |-> g.scope[Len(g.scope)].mod, kids |-> g.stmt.kids] >> \o g.scope)
                        IN [c EXCEPT !.nodes = Constrain(@, s.kids)]
              ELSE IF s.kw = "grouping" THEN      \* parsed for its errors only
-                  [nodes |-> <<>>, err |-> Inst(PP, s.kids, << [mod |-> m, kids |-> s.kids] >> \o scope).err]
+                  LET gi == Inst(PP, s.kids, << [mod |-> m, kids |-> s.kids] >> \o scope) IN
+                  [nodes |-> <<>>, err |-> gi.err \/ Dup(gi.nodes)]
              ELSE [nodes |-> <<>>, err |-> FALSE]
        IN [nodes |-> one.nodes \o rest.nodes, err |-> one.err \/ rest.err]
 
